@@ -357,7 +357,7 @@ static void generate_mix(Plan &plan, uint64_t seed, int tier, bool enum_only) {
     if (mode == M_DEEP) {
         Op op;
         op.kind = J_DEEP;
-        op.a[0] = cfg.chance(3, 4) ? 512 : (int64_t)(1 + cfg.below(700));
+        op.a[0] = cfg.chance(3, 4) ? 512 : (int64_t)(1 + cfg.below(512)); // the statement promises 512 levels, not more
         op.s.push_back(pack_units(deep_document(ops, (size_t)op.a[0])));
         plan.cfg["stack_kb"] = 8192;
         plan.ops.push_back(op);
@@ -443,6 +443,13 @@ static bool execute(Plan &plan) {
             if (!qsim::run_aborted()) qsim::check_leaks("json");
         },
         stack);
+    // the task stack is a simulator resource: a 512-level document has to fit the default 8 MiB of a Linux thread
+    if (plan.get("mode", 0) == M_DEEP && !qsim::run_aborted()) {
+        qsim::probe("json.deep.stack-hwm-bytes", qsim::stack_hwm());
+        if (qsim::stack_hwm() > stack)
+            qsim::report("stack", "json:deep", "parsing a deeply nested document used " + std::to_string(qsim::stack_hwm()) + " bytes of stack, more than the " +
+                                                   std::to_string(stack) + " bytes a default thread has");
+    }
     return cx.faults_fired > 0 || cx.parses >= 5;
 }
 
